@@ -171,8 +171,8 @@ var globalAllow = map[string]string{
 	"testPort":           "port allocator of the in-process test client: deliberately shared so that test clients never collide",
 	"multiDataStoreLock": "global ordering lock for two-database operations",
 	"clientsMu":          "mutex", "infoMu": "mutex",
-	"signals":            "debug id counter, only used to label wake signals",
-	"frameReach":         "", // not in the analysed package
+	"signals":    "debug id counter, only used to label wake signals",
+	"frameReach": "", // not in the analysed package
 }
 
 func ruleC20InstanceState(c *Ctx) {
